@@ -126,7 +126,72 @@ def ddmin(ops, failing, budget=60):
     return cur
 
 
+def untouched_case(k):
+    """A machine that does real work (Tasks that fail and are retried / caught, fan-outs, Waits) is created, run once or
+    twice, and described: running executions must leave the stored definition as it was created."""
+    from checks import engine as E
+    from gen import corpus
+    seed = common.run_seed(9600000 + k)
+    rng = random.Random(seed)
+    names = [n for n in sorted(corpus.CORPUS) if not corpus.CORPUS[n].get("machines") and not corpus.CORPUS[n].get("via")]
+    if rng.random() < 0.5:
+        scn = corpus.scenario(rng.choice(names))
+    else:
+        prog = E.gen_program(rng, rng.choice(["retry", "retry", "general", "fanout_caught"]), "quick")
+        scn = E.scenario_of(prog, {"policy": "canonical", "latency": "zero", "execution_ttl": 600}, 1, "STANDARD")
+    scn["config"] = dict(scn["config"], transport=rng.choice(["asyncio", "blocking"]), store=rng.choice(["file", "file", "redis"]))
+    if rng.random() < 0.4:
+        scn["executions"].append(dict(scn["executions"][0], name="e2", at=rng.choice([0.0, 1.0])))
+    return seed, scn
+
+
+def run_untouched(k, extra):
+    from lsfsim.runner import run_scenario
+    seed, scn = untouched_case(k)
+    res = run_scenario(scn, seed, horizon=scn["config"].get("execution_ttl", 600) + 200)
+    w = res.world
+    node = w.nodes[0]
+    findings = []
+    for name, m in sorted(scn["machines"].items()):
+        arn = res.sm_arns.get(name)
+        if arn is None:
+            continue
+        d = w.api_sync(node, "DescribeStateMachine", {"stateMachineArn": arn})
+        got = None
+        try:
+            got = json.loads(d["json"]["definition"])
+        except (TypeError, KeyError, ValueError):
+            pass
+        if d["status"] != 200 or got != json.loads(json.dumps(m["definition"])):
+            findings.append({"property": PROP, "rule": "definition-changed-by-executions", "witness": "DescribeStateMachine",
+                             "detail": "after its executions ran, DescribeStateMachine(%s) -> %s, definition %s; created %s" % (
+                                 name, d["status"], json.dumps(got, sort_keys=True)[:300],
+                                 json.dumps(m["definition"], sort_keys=True)[:300]), "seed": seed, "untouched": k})
+        for ename, earn in sorted(res.exec_arns.items()):
+            if m.get("type", "STANDARD") != "STANDARD" or earn is None or ":%s:" % name not in earn:
+                continue
+            fe = w.api_sync(node, "DescribeStateMachineForExecution", {"executionArn": earn})
+            try:
+                got2 = json.loads(fe["json"]["definition"])
+            except (TypeError, KeyError, ValueError):
+                got2 = None
+            if fe["status"] == 200 and got2 != json.loads(json.dumps(m["definition"])):
+                findings.append({"property": PROP, "rule": "definition-changed-by-executions",
+                                 "witness": "DescribeStateMachineForExecution",
+                                 "detail": "DescribeStateMachineForExecution(%s) returns %s; created %s" % (
+                                     ename, json.dumps(got2, sort_keys=True)[:300], json.dumps(m["definition"], sort_keys=True)[:300]),
+                                 "seed": seed, "untouched": k})
+    sim = res.sim
+    return {"evaluations": 1, "sim_seconds": sim.now - sim.epoch, "steps": sim.steps, "broker_ops": len(sim.broker.oplog),
+            "interleavings": [sim.order_hash.hexdigest()[:16]], "distinct": [common.sha(["untouched", scn["machines"]])],
+            "probes": {"definition-untouched-runs": 1, "worker-error-reply": sim.stats.get("worker-error-reply", 0)},
+            "faults": {k2: v for k2, v in sim.stats.items() if k2.startswith("worker-")},
+            "findings": findings[:2], "sample": None}
+
+
 def run_one(i, extra):
+    if isinstance(i, tuple) and i[0] == "untouched":
+        return run_untouched(i[1], extra)
     seed = common.run_seed(i)
     rng = random.Random(seed)
     front = rng.choice(["asyncio", "asyncio", "blocking"])
@@ -163,6 +228,11 @@ def main(argv):
     if len(argv) > 1 and argv[0] == "--replay":
         with open(argv[1]) as f:
             rec = json.load(f)
+        if "untouched" in rec:
+            r = run_untouched(rec["untouched"], {})
+            same = [f for f in r["findings"] if f["rule"] == rec["rule"]]
+            print("replay %s: %s" % (argv[1], "REPRODUCED rule=%s" % rec["rule"] if same else "not reproduced"))
+            return 1 if same else 0
         bad, _ = run_ops(rec["ops"], rec["seed"], rec["front_end"], rec.get("validate_asl", False))
         same = [b for b in bad if b[0] == rec["rule"] and b[1] == rec.get("witness")]
         print("replay %s: %s" % (argv[1], "REPRODUCED rule=%s%s" % (rec["rule"], common.digest_note(rec, same)) if same else "not reproduced"))
@@ -172,7 +242,8 @@ def main(argv):
     tier = common.tier()
     n = 2000 if tier == "quick" else 80000
     rep = common.Report(PROP)
-    for r in common.run_batch("checks.c10", "run_one", range(n), {"tier": tier}):
+    items = [("untouched", k) for k in range(150 if tier == "quick" else 6000)] + list(range(n))
+    for r in common.run_batch("checks.c10", "run_one", items, {"tier": tier}):
         rep.absorb(r)
     return rep.finish(
         rule="seeded sequences of 5-30 API calls (Create/Update/Delete/Describe/DescribeForExecution/List state machines, "
